@@ -1,7 +1,10 @@
 package props
 
 import (
+	"bytes"
+	"compress/gzip"
 	"fmt"
+	"io"
 	"net/http/httptest"
 	"sort"
 	"strconv"
@@ -40,8 +43,13 @@ type C19Case struct {
 	Repeat   int             `json:"repeat"`  // how often the multiset is cycled in the long history
 	Workers  int             `json:"workers"` // concurrent part
 	// Modes: how each route's function answers (by route id): 0 raw bytes, 1 WriteEntity,
-	// 2 WriteHeaderAndEntity, 3 WriteErrorString, 4 WriteServiceError, 5 WriteAsJson
+	// 2 WriteHeaderAndEntity, 3 WriteErrorString, 4 WriteServiceError, 5 WriteAsJson,
+	// 6 ReadEntity first, then raw bytes that echo what was read
 	Modes map[string]int `json:"modes,omitempty"`
+	// GzBody: indices of requests whose body travels gzip-encoded (Content-Encoding: gzip)
+	GzBody []int `json:"gz_body,omitempty"`
+	// Provider: compressor provider, installed afresh for the reference requests and for every history
+	Provider string `json:"provider,omitempty"` // "" / "pool": sync.Pool, "bounded": NewBoundedCachedCompressors(1, 1)
 }
 
 // c19Entity is what the entity-writing route functions answer with.
@@ -61,7 +69,7 @@ func genC19(t *rapid.T, concurrent bool) C19Case {
 		c.Table.Services[si].NFilters = rapid.IntRange(0, 2).Draw(t, "svcfilters")
 		for ri := range c.Table.Services[si].Routes {
 			c.Table.Services[si].Routes[ri].NFilters = rapid.IntRange(0, 2).Draw(t, "routefilters")
-			if m := rapid.SampledFrom([]int{0, 0, 0, 1, 1, 1, 2, 3, 4, 5}).Draw(t, "writemode"); m != 0 {
+			if m := rapid.SampledFrom([]int{0, 0, 0, 1, 1, 1, 2, 3, 4, 5, 6, 6}).Draw(t, "writemode"); m != 0 {
 				if c.Modes == nil {
 					c.Modes = map[string]int{}
 				}
@@ -111,8 +119,12 @@ func genC19(t *rapid.T, concurrent bool) C19Case {
 				r.Headers = append(r.Headers, model.H{K: "Accept-Encoding", V: rapid.SampledFrom([]string{"gzip", "deflate"}).Draw(t, "ae")})
 			}
 		}
+		if r.Body != "" && rapid.IntRange(0, 3).Draw(t, "gzbody") == 0 {
+			c.GzBody = append(c.GzBody, i)
+		}
 		c.Reqs = append(c.Reqs, r)
 	}
+	c.Provider = rapid.SampledFrom([]string{"pool", "pool", "pool", "pool", "pool", "pool", "pool", "bounded"}).Draw(t, "provider")
 	idx := make([]int, n)
 	for i := range idx {
 		idx[i] = i
@@ -147,6 +159,11 @@ func buildC19(c C19Case) (*restful.Container, interface{}) {
 		text := fmt.Sprintf("route=%s sel=%s doc=%s params=%s tag=%v stag=%v rtag=%v", id, sel, doc, strings.Join(ps, ","), req.Attribute("tag"), req.Attribute("stag"), req.Attribute("rtag"))
 		ent := c19Entity{Route: id, Sel: sel, Params: strings.Join(ps, ","), Tags: fmt.Sprint(req.Attribute("tag"), req.Attribute("stag"), req.Attribute("rtag"))}
 		switch c.Modes[id] {
+		case 6:
+			var v map[string]interface{}
+			err := req.ReadEntity(&v)
+			resp.WriteHeader(200)
+			fmt.Fprintf(resp, "%s read=%v failed=%v", text, v, err != nil)
 		case 1:
 			resp.WriteEntity(ent)
 		case 2:
@@ -220,9 +237,46 @@ func buildC19(c C19Case) (*restful.Container, interface{}) {
 	return ct, pan
 }
 
-func c19Send(ct *restful.Container, r model.ReqSpec, id, via string) string {
-	hr := harness.NewHTTPRequest(r, id)
+var (
+	gzMu    sync.Mutex
+	gzCache = map[string][]byte{}
+)
+
+// gzipped returns the gzip encoding of s (cached: a gzip.Writer costs more than a request).
+func gzipped(s string) []byte {
+	gzMu.Lock()
+	defer gzMu.Unlock()
+	if z, ok := gzCache[s]; ok {
+		return z
+	}
+	var b bytes.Buffer
+	zw := gzip.NewWriter(&b)
+	zw.Write([]byte(s))
+	zw.Close()
+	gzCache[s] = b.Bytes()
+	return gzCache[s]
+}
+
+func c19FreshProvider(c C19Case) {
+	if c.Provider == "bounded" {
+		restful.SetCompressorProvider(restful.NewBoundedCachedCompressors(1, 1))
+		return
+	}
+	restful.SetCompressorProvider(restful.NewSyncPoolCompessors())
+}
+
+func c19Send(ct *restful.Container, c C19Case, i int, via string) string {
+	r := c.Reqs[i]
+	hr := harness.NewHTTPRequest(r, strconv.Itoa(i))
 	hr.Header.Del(harness.ReqIDHeader)
+	for _, g := range c.GzBody {
+		if g == i {
+			z := gzipped(r.Body)
+			hr.Body = io.NopCloser(bytes.NewReader(z))
+			hr.ContentLength = int64(len(z))
+			hr.Header.Set("Content-Encoding", "gzip")
+		}
+	}
 	w := httptest.NewRecorder()
 	pan := ""
 	func() {
@@ -265,12 +319,21 @@ func checkC19(c C19Case, partName string) (vs []*Violation) {
 	c.Order1, c.Order2 = validOrder(c.Order1), validOrder(c.Order2)
 	// (1) reference: each request on its own fresh container
 	ref := make([]string, n)
-	for i, r := range c.Reqs {
+	for i := range c.Reqs {
 		ct, pan := buildC19(c)
 		if pan != nil {
 			return []*Violation{viol("", "building the configuration panicked: %v", pan)}
 		}
-		ref[i] = c19Send(ct, r, strconv.Itoa(i), c.Via)
+		// "the first request": nothing pooled by an earlier one. Only requests that can reach a
+		// compressor need the fresh provider (it is expensive: every first use allocates one).
+		touches := c.Reqs[i].Header("Accept-Encoding") != ""
+		for _, g := range c.GzBody {
+			touches = touches || g == i
+		}
+		if touches || i == 0 {
+			c19FreshProvider(c)
+		}
+		ref[i] = c19Send(ct, c, i, c.Via)
 	}
 	labels := []string{"router_" + c.Router, "via_" + c.Via}
 	if c.CORS {
@@ -285,6 +348,10 @@ func checkC19(c C19Case, partName string) (vs []*Violation) {
 	if len(c.Modes) > 0 {
 		labels = append(labels, "routes_writing_entities_or_errors")
 	}
+	if len(c.GzBody) > 0 {
+		labels = append(labels, "gzip_request_bodies")
+	}
+	labels = append(labels, "provider_"+c.Provider)
 	compare := func(mode string, i, pos int, got string) {
 		if got != ref[i] && len(vs) < 10 {
 			r := c.Reqs[i]
@@ -294,11 +361,12 @@ func checkC19(c C19Case, partName string) (vs []*Violation) {
 	if c.Workers == 0 {
 		// (2),(3) two sequential orders, the multiset cycled Repeat times
 		for oi, order := range [][]int{c.Order1, c.Order2} {
+			c19FreshProvider(c)
 			ct, _ := buildC19(c)
 			pos := 0
 			for rep := 0; rep < max(c.Repeat, 1); rep++ {
 				for _, i := range order {
-					compare("sequential order #"+strconv.Itoa(oi+1), i, pos, c19Send(ct, c.Reqs[i], strconv.Itoa(i), c.Via))
+					compare("sequential order #"+strconv.Itoa(oi+1), i, pos, c19Send(ct, c, i, c.Via))
 					pos++
 				}
 			}
@@ -307,12 +375,12 @@ func checkC19(c C19Case, partName string) (vs []*Violation) {
 		ct, _ := buildC19(c)
 		harness.SetTrace(true)
 		for pos, i := range c.Order1 {
-			compare("trace logging on", i, pos, c19Send(ct, c.Reqs[i], strconv.Itoa(i), c.Via))
+			compare("trace logging on", i, pos, c19Send(ct, c, i, c.Via))
 		}
 		// and once more after tracing was switched off again with TraceLogger(nil)
 		harness.SetTraceOff(true)
 		for pos, i := range c.Order2 {
-			compare("trace logging switched off with TraceLogger(nil)", i, pos, c19Send(ct, c.Reqs[i], strconv.Itoa(i), c.Via))
+			compare("trace logging switched off with TraceLogger(nil)", i, pos, c19Send(ct, c, i, c.Via))
 		}
 		harness.SetTrace(false)
 		if c.Repeat > 1 {
@@ -320,6 +388,7 @@ func checkC19(c C19Case, partName string) (vs []*Violation) {
 		}
 	} else {
 		// (4) concurrently from Workers goroutines on one container
+		c19FreshProvider(c)
 		ct, _ := buildC19(c)
 		var mu sync.Mutex
 		var wg sync.WaitGroup
@@ -329,7 +398,7 @@ func checkC19(c C19Case, partName string) (vs []*Violation) {
 				defer wg.Done()
 				for k := 0; k < n; k++ {
 					i := c.Order1[(k+g*3)%n]
-					got := c19Send(ct, c.Reqs[i], strconv.Itoa(i), c.Via)
+					got := c19Send(ct, c, i, c.Via)
 					mu.Lock()
 					compare("concurrent from "+strconv.Itoa(c.Workers)+" goroutines", i, k, got)
 					mu.Unlock()
